@@ -6,11 +6,11 @@ import json, os, re, threading, time
 import vlib
 
 P = {
-    'C01': dict(profile='c01', n=dict(quick=300, thorough=5000), wit=['Expanded', 'FellBackAfterFailure', 'KernelKill', 'Reaped']),
-    'C03': dict(profile='c03', n=dict(quick=300, thorough=5000), wit=['Expanded', 'SkippedUnpopulated', 'FellBackAfterFailure', 'PreferBeatsBiggerAvoid']),
-    'C04': dict(profile='c04', n=dict(quick=300, thorough=5000), wit=['DryStops', 'KernelKill', 'Reaped']),
-    'C07': dict(profile='c07', n=dict(quick=300, thorough=5000), wit=['HookOutstanding', 'HookTimedOut', 'VictimGoneDuringHook', 'SecondVictimFiresAgain']),
-    'C17': dict(profile='c17', n=dict(quick=300, thorough=5000), wit=['AlwaysContinueAfterKill', 'FellBackAfterFailure', 'DryStops', 'KernelKill']),
+    'C01': dict(profile='c01', n=dict(quick=300, thorough=3000), wit=['Expanded', 'FellBackAfterFailure', 'KernelKill', 'Reaped']),
+    'C03': dict(profile='c03', n=dict(quick=300, thorough=3000), wit=['Expanded', 'SkippedUnpopulated', 'FellBackAfterFailure', 'PreferBeatsBiggerAvoid']),
+    'C04': dict(profile='c04', n=dict(quick=300, thorough=3000), wit=['DryStops', 'KernelKill', 'Reaped']),
+    'C07': dict(profile='c07', n=dict(quick=300, thorough=3000), wit=['HookOutstanding', 'HookTimedOut', 'VictimGoneDuringHook', 'SecondVictimFiresAgain']),
+    'C17': dict(profile='c17', n=dict(quick=300, thorough=3000), wit=['AlwaysContinueAfterKill', 'FellBackAfterFailure', 'DryStops', 'KernelKill']),
 }
 ASSUME = [
     'cgroups, pids and kernel behaviour (cgroup.kill, pids.current, process exit after SIGKILL) are simulated by the harness; signals never leave the process',
@@ -58,7 +58,7 @@ def run(pid, tier, tmp, replay):
     rc, errlog = vlib.run_driver('plain', 'kill_driver', args, tmp, timeout=1200)
     if rc != 0:
         raise vlib.Infra('kill_driver exited with %s: %s' % (rc, open(errlog, errors='replace').read()[-1500:]))
-    val = vlib.validate_trace('KillAction_Trace.tla', 'KillAction_Trace.cfg', trace, tmp, timeout=1500)
+    val = vlib.validate_trace('KillAction_Trace.tla', 'KillAction_Trace.cfg', trace, tmp, timeout=3000)
     for t in ths:
         t.join()
     if errs:
